@@ -72,6 +72,33 @@ def iter_assignments(root: ast.Module) -> Iterable[ast.Name]:
                 yield from _unpack_ast_target(target)
 
 
+def iter_module_scope_statements(root: ast.Module) -> Iterable[ast.stmt]:
+    """Iterate over the statements that run in the scope of the module.
+
+    That is its body, and the blocks of the if, try, with, for, while and match statements in it,
+    but not the bodies of functions and classes.
+
+    Args:
+        root (ast.Module): Module to parse
+
+    Yields:
+        ast.stmt: A statement in module scope
+    """
+    blocks = [root.body]
+    while blocks:
+        for node in blocks.pop():
+            yield node
+            if isinstance(node, (ast.FunctionDef, ast.AsyncFunctionDef, ast.ClassDef)):
+                continue
+            blocks.extend(
+                block
+                for block in (getattr(node, field, None) for field in ("body", "orelse", "finalbody"))
+                if isinstance(block, list)
+            )
+            blocks.extend(handler.body for handler in getattr(node, "handlers", []))
+            blocks.extend(case.body for case in getattr(node, "cases", []))
+
+
 def iter_funcdefs(root: ast.Module) -> Iterable[ast.FunctionDef]:
     """Iterate over defined variables in code
 
